@@ -31,9 +31,9 @@ public:
                 m_array = static_cast<T *>(malloc(size * sizeof(T)));
                 memcpy(m_array, array, size * sizeof(T));
             } else {
-                m_array = static_cast<T*>(malloc(m_size * sizeof(T)));
+                m_array = static_cast<T*>(malloc(size * sizeof(T)));
 
-                for (size_t i = 0; i < m_size; i++) {
+                for (size_t i = 0; i < size; i++) {
                     new (&m_array[i]) T(array[i]);
                 }
             }
